@@ -111,6 +111,12 @@ func (b Bundle) Fragment(mtu int) (bs []Bundle, err error) {
 
 // fragmentPrimaryBlock creates a fragment's Primary Block and calculates its length.
 func fragmentPrimaryBlock(pb PrimaryBlock, fragmentOffset, totalDataLength int) (fragPb PrimaryBlock, l int, err error) {
+	// Fragments of a fragment refer to the payload of the original bundle.
+	if pb.HasFragmentation() {
+		fragmentOffset += int(pb.FragmentOffset)
+		totalDataLength = int(pb.TotalDataLength)
+	}
+
 	fragPb = PrimaryBlock{
 		Version:            pb.Version,
 		BundleControlFlags: pb.BundleControlFlags | IsFragment,
